@@ -29,3 +29,17 @@ package authz
 //@   loop 0 invariant forall i int, k int :: 0 <= i && i <= rangeindex && 0 <= k && k < len(validEmails) ==> !entMatch(validEmails[k], addrs[i])
 //@   loop 0 invariant forall i int :: 0 <= i && i <= rangeindex ==> splitOK(addrs[i])
 //@   loop 1 invariant forall k int :: 0 <= k && k <= rangeindex ==> !entMatch(validEmails[k], addr)
+
+// ---- C14: the default user-name normaliser ----
+// NormalizeAuto applies the PRECIS case-folding e-mail normalisation (which also folds width and Unicode
+// normalisation variants of the local part) to valid addresses and the PRECIS UsernameCaseMapped compare key to
+// anything else (assumed: address.Valid is a function of the string).
+//@ import precis "golang.org/x/text/secure/precis"
+//@ import address "github.com/foxcpp/maddy/framework/address"
+// (precisOK / precisKey and the contract of Profile.CompareKey are declared with pass_table)
+//@ extern func NormalizeAuto#Valid$call(addr string) bool
+//@   ensures result == validAddr(addr)
+//@ func NormalizeAuto
+//@   prop C14
+//@   ensures validAddr(s) ==> result0 == precisFoldOf(s) && result1 == precisFoldErrOf(s)
+//@   ensures !validAddr(s) ==> (result1 == nil) == precisOK(s) && (result1 == nil ==> result0 == precisKey(s))
